@@ -29,6 +29,7 @@ theorem dispatch_mint_supply (f : Faults) (d d' : Disp) (sender denom : String) 
 theorem dispatch_burn_supply (f : Faults) (d d' : Disp) (sender denom : String) (amount : Nat) (from_ : String)
     (h : dispatch f d (plain (.burn sender denom amount from_)) = (d', true)) :
     d'.w.supply denom = d.w.supply denom - amount ∧ amount ≤ d.w.bal from_ denom
+      ∧ amount ≤ d.w.supply denom
       ∧ d'.w.bal from_ denom = d.w.bal from_ denom - amount := by
   simp only [dispatch, plain] at h
   split at h
@@ -36,7 +37,7 @@ theorem dispatch_burn_supply (f : Faults) (d d' : Disp) (sender denom : String) 
   · rename_i hc
     simp only [Bool.or_eq_true, decide_eq_true_eq, not_or, Nat.not_lt] at hc
     cases h
-    simp [Bal.sub, hc.2]
+    simp [Bal.sub, hc.1.2, hc.2]
 
 /-- a successful LiquidStake mints `m` to the contract and delivers exactly `m` to the chosen
 recipient — by a bank send on the protocol chain or by an IBC transfer to a native-chain address —
